@@ -42,6 +42,7 @@ type pgPage struct {
 
 type pgScn struct {
 	Doc    []pgBlock `json:"doc"`
+	Rtl    bool      `json:"rtl"`
 	H      int       `json:"H"`
 	Hfirst int       `json:"Hfirst"`
 	Pages  []pgPage  `json:"pages"`
@@ -69,10 +70,10 @@ func c12PageH(h, variant int) int {
 var c12Spell = map[string][]string{
 	"before:page":  {"break-before:page", "break-before:always", "page-break-before:always"},
 	"after:page":   {"break-after:page", "break-after:always", "page-break-after:always"},
-	"before:left":  {"break-before:left", "page-break-before:left", "break-before:verso"},
-	"after:left":   {"break-after:left", "page-break-after:left", "break-after:verso"},
-	"before:right": {"break-before:right", "page-break-before:right", "break-before:recto"},
-	"after:right":  {"break-after:right", "page-break-after:right", "break-after:recto"},
+	"before:left":  {"break-before:left", "page-break-before:left"},
+	"after:left":   {"break-after:left", "page-break-after:left"},
+	"before:right": {"break-before:right", "page-break-before:right"},
+	"after:right":  {"break-after:right", "page-break-after:right"},
 	"before:avoid": {"break-before:avoid", "page-break-before:avoid", "break-before:avoid-page"},
 	"after:avoid":  {"break-after:avoid", "page-break-after:avoid", "break-after:avoid-page"},
 	"inside:avoid": {"break-inside:avoid", "page-break-inside:avoid", "break-inside:avoid-page"},
@@ -103,6 +104,9 @@ func c12HTML(s *pgScn, variant int) string {
 	b.WriteString(`@page :first{@top-right{content:"F";font-family:weasyprint;font-size:8px;line-height:10px}}@page{@top-right{content:"N";font-family:weasyprint;font-size:8px;line-height:10px}}`)
 	b.WriteString(`@page n{@bottom-left{content:"named";font-family:weasyprint;font-size:8px;line-height:10px}}@page m{@bottom-left{content:"m";font-family:weasyprint;font-size:8px;line-height:10px}}`)
 	b.WriteString(`@page :left{margin-left:20px}@page :right{margin-left:30px}@page :blank{@top-center{content:"blank";font-family:weasyprint;font-size:8px;line-height:10px}}`)
+	if s.Rtl {
+		b.WriteString(`html{direction:rtl}`)
+	}
 	b.WriteString(`html,body,div,section,article{display:block;margin:0;padding:0}p{display:block;margin:0;font-family:weasyprint;font-size:8px;line-height:10px}</style></head><body>`)
 	n := 0
 	switch s.Wrap {
@@ -280,8 +284,8 @@ func c12Main(args []string) int {
 			if o.First != (i == 0) {
 				out.Disagree("C12:page-type:first", fmt.Sprintf("page %d first=%v: %s", i+1, o.First, show()), detail())
 			}
-			if o.Right != (i%2 == 0) {
-				out.Disagree("C12:page-type:side", fmt.Sprintf("page %d of an ltr document is right=%v: %s", i+1, o.Right, show()), detail())
+			if o.Right != ((i%2 == 0) != s.Rtl) {
+				out.Disagree("C12:page-type:side", fmt.Sprintf("page %d of a document with rtl=%v is right=%v: %s", i+1, s.Rtl, o.Right, show()), detail())
 			}
 			if math.Abs(o.w-200) > 0.01 || math.Abs(o.h-wantH) > 0.01 {
 				out.Disagree("C12:geometry:size", fmt.Sprintf("page %d is %gx%g instead of 200x%g: %s", i+1, o.w, o.h, wantH, show()), detail())
@@ -365,7 +369,7 @@ func c12Main(args []string) int {
 			out.Count("differs-from-model")
 		}
 		// trace record for TLC
-		out.Emit(map[string]interface{}{"doc": s.Doc, "H": s.H, "Hfirst": s.Hfirst, "pages": obs, "same": same})
+		out.Emit(map[string]interface{}{"doc": s.Doc, "rtl": s.Rtl, "H": s.H, "Hfirst": s.Hfirst, "pages": obs, "same": same})
 
 		// ---- C02: drawing
 		drawn := make([][]string, len(obs))
